@@ -1,4 +1,75 @@
-"""C01 — not built yet."""
+"""C01 — every accepted IDL yields Go code that compiles (DESIGN.md §5.1, docs/C01.md)."""
+import json, os
+from vlib import core
+
+THEOREMS = ["Props.C01." + t for t in ["ns_add_fresh", "ns_inj", "ns_names_distinct", "scope_globals_nodup", "struct_members_nodup",
+            "func_params_safe", "keywords_cover", "imports_exact", "scope_globals_complete_partial", "mint_clash_witness",
+            "struct_members_complete_partial"]]
+
+
 def run(ctx):
-    print("C01: no check built yet")
-    return 2
+    exe = ctx.go_build("c01")
+    ctx.trusted += ["translator harness/cmd/c01 extract (isKeywords of types.go, go/token keywords, std table of imports.go) -> Generated/C01.lean",
+                    "ORACLE = the Go toolchain: thriftgo binary built from the repo, go/parser on every written file, `go build` of all generated "
+                    "packages (+ `go vet` type-check lines on a sample); go/types in process only steers the shrinker, every reported input is "
+                    "re-established with the binary and go build",
+                    "correspondence: thriftgo's own parser+semantic passes (in process) feed the model, real CodeUtils.Identify supplies the naming "
+                    "table, go/parser reads the generated declarations; tv_c01 (Lib/Names.lean) must print the same names",
+                    "shared harness packages idlgen / batch (harness/internal)"]
+    ctx.assumptions += ["that the template TEXT around the identifiers is well-typed Go is NOT proved: it is observed by compiling (oracle)",
+                        "thrift identifiers are ASCII (LowerFirstRune / Unexport modelled on bytes)",
+                        "UseStdLibrary calls are not modelled: the package qualifiers used in the generated body are handed to the model as observed; "
+                        "imports added late by Scope.includeIDL (types reached through a third file) are handed over as observed",
+                        "units with template=slim/raw_struct, no_default_serdes, code_ref*, trim_idl, use_option, thrift_streaming … are compiled "
+                        "(oracle) but not compared with the model (their identifier sets are not the default templates')"]
+    ctx.partial += ["scope_globals_complete_partial / struct_members_complete_partial: the templates mint identifiers outside every namespace; the "
+                    "full 'no identifier declared twice' is FALSE (mint_clash_witness, replayed as known unit X1) and is proved under the decidable "
+                    "hypotheses noMintClash / noMemberMintClash",
+                    "scope_globals_nodup needs pairwise distinct binding ids: two services of one file with a function of the same name share the id "
+                    "`<fn>_args` (buildStructLike binds the synthesized struct under v.Name); such files are covered by the correspondence only"]
+    if exe and ctx.replay:
+        doc = json.load(open(ctx.replay))
+        if doc.get("kind") == "failing-input" and isinstance(doc.get("input"), dict) and doc["input"].get("files"):
+            rc, out = core.sh([exe, "replay", "-repo", core.REPO, "-dir", ctx.work, "-file", ctx.replay], timeout=1800)
+            rp = os.path.join(ctx.work, "replay-result.json")
+            if rc not in (0, 1) or not os.path.exists(rp):
+                raise core.MachineryError("c01 replay failed: " + out[-3000:])
+            res = json.load(open(rp))
+            print(out[-3000:])
+            ctx.cov["evaluations"] = 1
+            if res["violation"]:
+                ctx.add_violation(doc["key"] if res["same"] else res["head"], doc.get("what", ""), doc["input"], doc.get("expected"), out[-1500:])
+            return ctx.finish(rule="replay of one minimised (IDL program, command line)")
+    if exe:
+        rc, gen = core.sh([exe, "extract", "-repo", core.REPO])
+        ctx.obligation("translator:c01-extract", rc == 0, gen[-2000:] if rc else "")
+        if rc == 0:
+            ctx.write_generated("C01", gen)
+    built = ctx.lake_build(["ThriftVerif.Props.C01"], "lake-build:Props.C01")
+    drv = ctx.lake_build(["tv_c01"], "lake-build:tv_c01")
+    if built:
+        ctx.audit("C01", THEOREMS)
+        if ctx.tier == "thorough":
+            ctx.leanchecker(["ThriftVerif.Props.C01"])
+    if exe:
+        rc, out = core.sh([exe, "run", "-repo", core.REPO, "-dir", ctx.work, "-seed", str(ctx.seed), "-tier", ctx.tier], timeout=3400)
+        if rc not in (0, 1) or not os.path.exists(os.path.join(ctx.work, "stats.json")):
+            raise core.MachineryError("c01 run failed: " + out[-3000:])
+        print("\n".join(l for l in out.split("\n") if l.startswith(("batch:", "c01:"))))
+        st = json.load(open(os.path.join(ctx.work, "stats.json")))
+        dist = st["distribution"]
+        ctx.cov.update(evaluations=st["evaluations"], distinct_nontrivial=st["distinct_nontrivial"], samples=st["samples"] or [],
+                       distribution=dist,
+                       programs=sum(v for k, v in dist.items() if k.startswith("unit.options.")),
+                       units_compared_with_model=dist.get("tie.units", 0),
+                       units_failing=dist.get("unit.failing", 0))
+        for f in (st.get("oracle_failures") or []):
+            ctx.add_violation(f["key"], f["what"], f["input"], f["expected"], f["observed"])
+        if drv:
+            ops = os.path.join(ctx.work, "ops.txt")
+            model = ctx.run_model("tv_c01", ops)
+            ctx.diff_lines("c01:Names-vs-generated-declarations", ops, os.path.join(ctx.work, "impl.txt"), model)
+    return ctx.finish(rule="(IDL program, backend, option set) units: seeded idlgen programs with the stress name pool x every documented option alone "
+                           "(rotating) and random combinations, -r on/off, fastgo; dedicated known-defect units; switch stream. A correspondence line "
+                           "is non-trivial when it is a query (outcome / globals / members / params / imports of one generated file); distinct by "
+                           "sha256 of the op line")
